@@ -478,6 +478,7 @@ func CheckMain(self, id, tier string) int {
 	merged := &Result{Exhaustive: true, Extra: map[string]int64{}}
 	st, oc, nt := map[uint64]struct{}{}, map[uint64]struct{}{}, map[uint64]struct{}{}
 	var mx sync.Mutex
+	var crashes []string
 	sem := make(chan struct{}, par)
 	var wg sync.WaitGroup
 	// VERIF_SEED only permutes the order in which shards are started.
@@ -491,10 +492,34 @@ func CheckMain(self, id, tier string) int {
 		go func(shard int) {
 			defer wg.Done()
 			defer func() { <-sem }()
-			r, err := runWorker(self, []string{id, tier, strconv.Itoa(shard), strconv.Itoa(n)}, budget+2*time.Minute,
-				filepath.Join(logDir, fmt.Sprintf("%s-%s-%d.log", id, tier, shard)))
+			logPath := filepath.Join(logDir, fmt.Sprintf("%s-%s-%d.log", id, tier, shard))
+			r, err := runWorker(self, []string{id, tier, strconv.Itoa(shard), strconv.Itoa(n)}, budget+2*time.Minute, logPath)
+			crash := ""
+			if err != nil {
+				// A worker that died from a panic raised inside the code under test (not
+				// in the harness) is evidence against the code, provided it happens again
+				// on a second run of the same shard.
+				if where := crashInRepo(logPath); where != "" {
+					logPath2 := logPath + ".rerun"
+					if _, err2 := runWorker(self, []string{id, tier, strconv.Itoa(shard), strconv.Itoa(n)}, budget+2*time.Minute, logPath2); err2 != nil {
+						if where2 := crashInRepo(logPath2); where2 != "" {
+							crash = where2
+						}
+					}
+				}
+			}
 			mx.Lock()
 			defer mx.Unlock()
+			if crash != "" {
+				keep := filepath.Join(Root, "replays", fmt.Sprintf("%s-crash-shard%d.log", id, shard))
+				os.MkdirAll(filepath.Join(Root, "replays"), 0755)
+				if b, rerr := os.ReadFile(logPath); rerr == nil {
+					os.WriteFile(keep, b, 0644)
+				}
+				crashes = append(crashes, fmt.Sprintf("VIOLATION property=%s replay=%s\n  key=process-crash-in-code-under-test (shard %d of %d, reproduced on re-run)\n  %s", id, keep, shard, n, crash))
+				merged.Exhaustive = false
+				return
+			}
 			if err != nil {
 				merged.Exhaustive = false
 				merged.Notes = append(merged.Notes, fmt.Sprintf("shard %d: harness failure (not a violation): %v", shard, trunc(err.Error(), 600)))
@@ -509,10 +534,15 @@ func CheckMain(self, id, tier string) int {
 	// classify violations
 	known := loadKnown()
 	exit := 0
+	var realViolations int64
+	for _, cr := range crashes {
+		fmt.Println(cr)
+		exit = 1
+		realViolations++
+	}
 	os.MkdirAll(filepath.Join(Root, "replays"), 0755)
 	knownSeen := map[string]int{}
 	reported := map[string]bool{}
-	var realViolations int64
 	nondeterministic := 0
 	for _, v := range merged.Violations {
 		matched := ""
@@ -525,7 +555,8 @@ func CheckMain(self, id, tier string) int {
 			knownSeen[matched]++
 			continue
 		}
-		if reported[v.Key] {
+		if reported[v.Key] || len(reported) >= 5 {
+			// further violations (same key, or beyond the first five distinct keys) are counted, not replayed
 			realViolations++
 			continue
 		}
@@ -654,6 +685,55 @@ func ReplayMain(self, id, path string) int {
 	}
 	fmt.Println("replay: no violation")
 	return 0
+}
+
+// crashInRepo looks at a dead worker's log: if it died from a Go panic or fatal
+// error whose innermost frames are in the code under test (/repo), it returns a
+// short description, else "".
+func crashInRepo(logPath string) string {
+	b, err := os.ReadFile(logPath)
+	if err != nil {
+		return ""
+	}
+	text := string(b)
+	i := strings.Index(text, "panic: ")
+	if j := strings.Index(text, "fatal error: "); j >= 0 && (i < 0 || j < i) {
+		i = j
+	}
+	if i < 0 {
+		return ""
+	}
+	lines := strings.Split(text[i:], "\n")
+	head := lines[0]
+	// the frames of the panicking goroutine follow the first "goroutine N [running]:" line
+	var frames []string
+	started := false
+	for _, l := range lines[1:] {
+		if strings.HasPrefix(l, "goroutine ") {
+			if started {
+				break
+			}
+			started = true
+			continue
+		}
+		if started && strings.HasPrefix(l, "\t") {
+			frames = append(frames, strings.TrimSpace(l))
+		}
+	}
+	// skip runtime frames; the first non-runtime frame decides
+	for _, f := range frames {
+		if strings.Contains(f, "/src/runtime/") || strings.Contains(f, "/src/sync/") {
+			continue
+		}
+		if strings.Contains(f, "/pkg/mod/") {
+			continue // a dependency: whoever called it decides
+		}
+		if strings.HasPrefix(f, "/repo/") {
+			return trunc(head, 300) + " at " + f
+		}
+		return ""
+	}
+	return ""
 }
 
 func trunc(s string, n int) string {
